@@ -324,14 +324,44 @@ fn print_xml(
 				.chain(print_prev(i - 3))
 				.chain(once(format!("</Comparison>"))),
 		),
-		(Binary { token: _ }, [_, _, _, Item { at: left }, BinaryOp(op)]) =>
+		(Binary { token: _ }, [_, _, _, Item { .. }, BinaryOp(_)]) =>
 		{
-			Box::new(
-				once(format!("<Binary op=\"{op:?}\">"))
-					.chain(print_item(left))
-					.chain(print_prev(i - 3))
-					.chain(once(format!("</Binary>"))),
-			)
+			// Walk down the left operands with a loop: `a + b + c + ...` is
+			// nested once per operator, and one level of recursion (and of
+			// iterator nesting) per operator overflows the stack.
+			let mut parts = Vec::new();
+			let mut rights = Vec::new();
+			let mut j = i;
+			loop
+			{
+				let context: Option<&[ParseNode; MAX_PARSE_NODE_CONTEXT]> =
+					nodes[..j].last_chunk();
+				match (nodes[j], context)
+				{
+					(
+						Binary { token: _ },
+						Some([_, _, _, Item { at: left }, BinaryOp(op)]),
+					) =>
+					{
+						parts.push(Box::new(once(format!(
+							"<Binary op=\"{op:?}\">"
+						))) as Box<dyn Iterator<Item = String>>);
+						rights.push(j - 3);
+						j = usize::from(left.0);
+					}
+					_ =>
+					{
+						parts.push(print_prev(j));
+						break;
+					}
+				}
+			}
+			for right in rights.into_iter().rev()
+			{
+				parts.push(print_prev(right));
+				parts.push(Box::new(once(format!("</Binary>"))));
+			}
+			Box::new(parts.into_iter().flatten())
 		}
 		(Unary { token: _ }, [_, _, _, _, UnaryOp(op)]) => Box::new(
 			once(format!("<Unary op=\"{op:?}\">"))
@@ -522,9 +552,30 @@ fn print_xml(
 		}
 
 		(Item { at }, _) => print_item(at),
-		(ListItem { next }, _) =>
+		(ListItem { .. }, _) =>
 		{
-			Box::new(print_prev(i - 1).chain(print_item(next)))
+			// Walk the list with a loop: one level of recursion (and of
+			// iterator nesting) per element overflows the stack on long lists.
+			let mut items = Vec::new();
+			let mut cursor = node_id;
+			loop
+			{
+				let j = usize::from(cursor.0);
+				match nodes[j]
+				{
+					ListItem { next } =>
+					{
+						items.push(print_prev(j - 1));
+						cursor = next;
+					}
+					_ =>
+					{
+						items.push(print_item(cursor));
+						break;
+					}
+				}
+			}
+			Box::new(items.into_iter().flatten())
 		}
 		(NoMoreItems, _) => Box::new(std::iter::empty()),
 
